@@ -165,7 +165,7 @@ func expectedKept(items []respItem, mode providerMode, pool map[string]gmsl.PDU)
 
 func runC14(c *mon.Ctx) {
 	r := c.Rand("scenarios")
-	versions := []gmsl.RoomVersion{"1", "6", "10", "12"}
+	versions := []gmsl.RoomVersion{"1", "6", "8", "10", "12"}
 	if c.Thorough() {
 		versions = nil
 		for _, v := range sortedVersions() {
@@ -402,6 +402,70 @@ func c14StateResponses(c *mon.Ctx, r *gen.Rand, sc *simScenario, other *simScena
 				check("auth", auItems, gotAuth, removedAuth)
 				if c.WantSample() && len(desc) > 0 {
 					c.Sample(dd)
+				}
+			})
+		}
+	}
+	// a second, hash-broken copy of a state event among the auth events: it parses as the event's redacted form (same
+	// ID, signatures still valid) and is judged as such; the intact copy in the state is judged on what IT says, and
+	// every other event exactly as without the extra copy
+	{
+		var resp0 rawResp
+		for _, p := range state {
+			resp0.state = append(resp0.state, p.JSON())
+		}
+		for _, p := range auth {
+			resp0.auth = append(resp0.auth, p.JSON())
+		}
+		var victims []gmsl.PDU
+		for _, p := range state {
+			if p.Type() == "m.room.member" && strings.Contains(string(p.Content()), "join_authorised_via_users_server") {
+				victims = append(victims, p)
+			}
+		}
+		for _, p := range gen.Shuffled(r, state) {
+			if len(victims) < 3 && p.Type() != "m.room.create" {
+				victims = append(victims, p)
+			}
+		}
+		for _, victim := range victims {
+			tv := ref.MustParse(victim.JSON())
+			tv.Get("content").Set("zz_added_after_signing", ref.I(1))
+			broken := gen.Plain().Bytes(tv)
+			bp, err := sc.s.impl.NewEventFromUntrustedJSON(broken)
+			if err != nil || !bp.Redacted() || bp.EventID() != victim.EventID() {
+				continue
+			}
+			resp := rawResp{state: resp0.state, auth: append(append(gmsl.EventJSONs{}, resp0.auth...), broken)}
+			if r.Chance(0.5) {
+				resp.auth = append(gmsl.EventJSONs{broken}, resp0.auth...)
+			}
+			c.Case("state-response:redacted-copy-listed-too:"+string(sc.s.ver), map[string]any{"version": sc.s.ver, "victim": victim.Type(), "victim_id": victim.EventID()}, func() {
+				c.Nontrivial(fmt.Sprintf("%s|redacted-copy|%s", sc.s.ver, victim.EventID()))
+				var asked []string
+				var base, got []gmsl.PDU
+				var err0, err1 error
+				site, msg, pan := mon.Guard(func() {
+					_, base, err0 = gmsl.CheckStateResponse(context.Background(), resp0, sc.s.ver, c14ring, mkProvider(provReturns, sc.s.all, &asked), userIDForSender)
+					_, got, err1 = gmsl.CheckStateResponse(context.Background(), resp, sc.s.ver, c14ring, mkProvider(provReturns, sc.s.all, &asked), userIDForSender)
+				})
+				if pan {
+					c.Failf("stateresponse:panic:"+site, "CheckStateResponse panics: %s", msg)
+					return
+				}
+				c.Count("state_responses")
+				c.Count("state_responses_with_a_redacted_copy")
+				if err0 != nil || err1 != nil {
+					c.Failf("stateresponse:unexpected-error", "CheckStateResponse fails: %v / %v", err0, err1)
+					return
+				}
+				if fmt.Sprint(idsOf(base)) != fmt.Sprint(idsOf(got)) {
+					c.Failf("stateresponse:drops-good-state-event:redacted-copy-among-auth-events", "with a hash-broken (hence redacted) copy of %s %s added to the auth events, CheckStateResponse returns the state %v; without it %v", victim.Type(), victim.EventID(), idsOf(got), idsOf(base))
+				}
+				for _, p := range got {
+					if p.EventID() == victim.EventID() && p.Redacted() {
+						c.Failf("stateresponse:returns-redacted-copy-as-state", "the state event %s comes back as the redacted copy that was listed among the auth events", victim.EventID())
+					}
 				}
 			})
 		}
@@ -912,12 +976,19 @@ func c14Load(c *mon.Ctx, r *gen.Rand, sc *simScenario) {
 	if len(inputs) == 0 {
 		return
 	}
-	if r.Chance(0.3) {
-		// a batch may list an event twice: the copy still gets a result of its own (without an event, like an
-		// unparsable element), and the first copy is classified as usual
+	if r.Chance(0.4) {
+		// a batch may list an event more than once, the copies alike or one of them with a damaged signature, in either
+		// order: every input gets a result, and every copy is classified by the first check IT fails
 		for _, i := range inputs {
 			if i.pdu != nil {
-				inputs = append(inputs, in{raw: i.raw, expect: "parse"})
+				switch r.Intn(3) {
+				case 0:
+					inputs = append(inputs, i)
+				case 1:
+					inputs = append(inputs, in{raw: corruptSig(i.pdu), pdu: i.pdu, expect: classify(i.pdu, false)})
+				default:
+					inputs = append([]in{{raw: corruptSig(i.pdu), pdu: i.pdu, expect: classify(i.pdu, false)}}, inputs...)
+				}
 				break
 			}
 		}
@@ -959,7 +1030,7 @@ func c14Load(c *mon.Ctx, r *gen.Rand, sc *simScenario) {
 			c.Failf("load:result-count", "%d results for %d inputs", len(res), len(inputs))
 			return
 		}
-		byID := map[string]string{}
+		byID := map[string][]string{}
 		parseErrs := 0
 		for _, rs := range res {
 			cls := "ok"
@@ -985,23 +1056,29 @@ func c14Load(c *mon.Ctx, r *gen.Rand, sc *simScenario) {
 				parseErrs++
 				continue
 			}
-			byID[rs.Event.EventID()] = cls
+			byID[rs.Event.EventID()] = append(byID[rs.Event.EventID()], cls)
 		}
 		if parseErrs != want["parse"] {
-			c.Failf("load:parse-error-count", "%d results report a parse error, %d inputs were unparsable", parseErrs, want["parse"])
+			c.Failf("load:parse-error-count", "%d results report an error without an event, %d inputs were unparsable", parseErrs, want["parse"])
 		}
+		expByID := map[string][]string{}
 		for _, i := range inputs {
-			if i.pdu == nil {
-				continue
+			if i.pdu != nil {
+				expByID[i.pdu.EventID()] = append(expByID[i.pdu.EventID()], i.expect)
+				c.Count("load_class_" + i.expect)
 			}
-			got, ok := byID[i.pdu.EventID()]
-			if !ok {
-				c.Failf("load:input-without-result", "input %s has no result", i.pdu.EventID())
-				continue
-			}
-			c.Count("load_class_" + i.expect)
-			if got != i.expect {
-				c.Failf("load:misclassified:"+i.expect+"-as-"+got, "LoadAndVerify classifies %s (%s) as %q; the first check it fails is %q", i.pdu.EventID(), i.pdu.Type(), got, i.expect)
+		}
+		for id, exp := range expByID {
+			got := byID[id]
+			sort.Strings(exp)
+			sort.Strings(got)
+			switch {
+			case len(got) == 0:
+				c.Failf("load:input-without-result", "input %s has no result", id)
+			case len(exp) > 1 && fmt.Sprint(got) != fmt.Sprint(exp):
+				c.Failf("load:repeated-event-misclassified", "LoadAndVerify classifies the %d copies of %s as %v; judged each by the first check it fails they are %v", len(exp), id, got, exp)
+			case fmt.Sprint(got) != fmt.Sprint(exp):
+				c.Failf("load:misclassified:"+exp[0]+"-as-"+got[0], "LoadAndVerify classifies %s as %q; the first check it fails is %q", id, got[0], exp[0])
 			}
 		}
 	})
